@@ -221,4 +221,123 @@ theorem poly_reproduction (t : List ℝ) (K : Nat) (H : RightEnd t K) (he : EndK
     exact hsolve i hi'
   · cases h
 
+/-- the least-squares solve, spelled out: the normal equations `AᵀA c = Aᵀy` over `rows = tau.length` rows -/
+theorem csolve_lsq (k : Nat) (t tau : List ℝ) (y : List ℝ) (l r : Nat) :
+    (⟨k, t, none⟩ : PPSpline ℝ ℝ).csolve tau y l r true =
+      if (tau.length = t.length - k ∨ tau.length > t.length - k) ∧ tau.length = y.length then
+        some ⟨k, t, some ((List.range (t.length - k)).map
+          (fdsolve21 (α := ℝ) (σ := ℝ) (t.length - k)
+            ⟨fun i j => dotOver (List.range tau.length)
+                (fun q => bsplMatrix k t (t.length - k) tau l r q i)
+                (fun q => bsplMatrix k t (t.length - k) tau l r q j),
+             fun i => fdotOver (α := ℝ) (σ := ℝ) (List.range tau.length)
+                (fun q => bsplMatrix k t (t.length - k) tau l r q i) (fun q => y.getD q (ModOps.zero ℝ))⟩))⟩
+      else none := by
+  unfold PPSpline.csolve
+  simp only [PPSpline.n, fdsolve, Bool.true_and, if_true]
+  by_cases h1 : tau.length = t.length - k
+  · by_cases h2 : tau.length = y.length
+    · simp [h1, h2]
+    · simp [h1, h2]
+  · by_cases h3 : tau.length > t.length - k
+    · by_cases h2 : tau.length = y.length
+      · have h4 : ¬ tau.length ≤ t.length - k := by omega
+        simp [h1, h2, h3, h4]
+        have h5 : ¬ y.length ≤ t.length - k := by omega
+        have h6 : t.length - k < y.length := by omega
+        simp [h5, h6]
+      · simp [h1, h2, h3]
+    · simp [h1, h3]
+
+theorem dot_real_sum (n : Nat) (f g : Nat → ℝ) :
+    dotOver (τ := ℝ) (List.range n) f g = ∑ i ∈ Finset.range n, f i * g i := by
+  have h1 : dotOver (τ := ℝ) (List.range n) f g
+      = @dotOver ℝ (ringLinOps geR) (List.range n) f g := rfl
+  rw [h1, dotOver_eq, List.range_eq_range', sum_range', Finset.range_eq_Ico]
+  simp
+
+/-- POLYNOMIAL REPRODUCTION, LEAST-SQUARES BRANCH (at least as many sites as coefficients): the normal
+equations built from polynomial data are solved by Marsden's coefficients; if their elimination meets no zero
+pivot (full column rank), the solved spline and all its derivatives equal the polynomial's. -/
+theorem poly_reproduction_lsq (t : List ℝ) (K : Nat) (H : RightEnd t K) (he : EndKnots t K)
+    (p : ℝ[X]) (hp : p.natDegree < K) (tau : List ℝ) (l r : Nat)
+    (htau : ∀ j, j < tau.length → knot t 0 ≤ tau.getD j 0 ∧ tau.getD j 0 ≤ knot t (t.length - 1))
+    (y : List ℝ)
+    (hy : ∀ j, j < tau.length → y.getD j 0 = (derivative^[rowOrder tau.length l r j] p).eval (tau.getD j 0))
+    (hpiv : PivotsGood geR (t.length - K) (List.range (t.length - K))
+      ⟨fun i j => ∑ q ∈ Finset.range tau.length,
+          bsplMatrix K t (t.length - K) tau l r q i * bsplMatrix K t (t.length - K) tau l r q j,
+       fun i => ∑ q ∈ Finset.range tau.length, bsplMatrix K t (t.length - K) tau l r q i * y.getD q 0⟩)
+    (s' : PPSpline ℝ ℝ) (h : (⟨K, t, none⟩ : PPSpline ℝ ℝ).csolve tau y l r true = some s') :
+    ∀ (x : ℝ), knot t 0 ≤ x → x ≤ knot t (t.length - 1) → ∀ m,
+      s'.ppdnev x m = some ((derivative^[m] p).eval x) := by
+  rw [csolve_lsq] at h
+  split at h
+  · rename_i hc
+    injection h with h
+    subst h
+    intro x hx0 hx1 m
+    set n := t.length - K with hn
+    set A := bsplMatrix K t n tau l r with hA
+    have hsysEq : (⟨fun i j => dotOver (List.range tau.length) (fun q => A q i) (fun q => A q j),
+        fun i => fdotOver (α := ℝ) (σ := ℝ) (List.range tau.length) (fun q => A q i)
+          (fun q => y.getD q (ModOps.zero ℝ))⟩ : FSys ℝ ℝ)
+        = ⟨fun i j => ∑ q ∈ Finset.range tau.length, A q i * A q j,
+           fun i => ∑ q ∈ Finset.range tau.length, A q i * y.getD q 0⟩ := by
+      congr 1
+      · funext i j; exact dot_real_sum _ _ _
+      · funext i; exact fdot_real_sum _ _ _
+    rw [hsysEq]
+    set sys : FSys ℝ ℝ := ⟨fun i j => ∑ q ∈ Finset.range tau.length, A q i * A q j,
+      fun i => ∑ q ∈ Finset.range tau.length, A q i * y.getD q 0⟩ with hsys
+    -- every row of the collocation system is satisfied by Marsden's coefficients …
+    have hrow : ∀ q, q < tau.length →
+        ∑ j ∈ Finset.range n, A q j * marsdenCoef t K p j = y.getD q 0 := by
+      intro q hq
+      have := poly_spline_derivs t K H he p hp (rowOrder tau.length l r q) (tau.getD q 0)
+        (htau q hq).1 (htau q hq).2
+      unfold splineFn at this
+      rw [fdot_real_sum] at this
+      rw [hy q hq, ← this]
+      apply Finset.sum_congr rfl
+      intro j _
+      rw [hA, bsplMatrix_row]
+    -- … hence so are the normal equations
+    have hsol : Sol n (toSys sys) (marsdenCoef t K p) := by
+      intro i hi
+      unfold rowDot
+      simp only [toSys, hsys]
+      calc ∑ j ∈ Finset.range n, (∑ q ∈ Finset.range tau.length, A q i * A q j) * marsdenCoef t K p j
+          = ∑ q ∈ Finset.range tau.length, A q i * ∑ j ∈ Finset.range n, A q j * marsdenCoef t K p j := by
+            simp only [Finset.sum_mul, Finset.mul_sum]
+            rw [Finset.sum_comm]
+            apply Finset.sum_congr rfl
+            intro q _
+            apply Finset.sum_congr rfl
+            intro j _; ring
+        _ = ∑ q ∈ Finset.range tau.length, A q i * y.getD q 0 := by
+            apply Finset.sum_congr rfl
+            intro q hq
+            rw [hrow q (Finset.mem_range.1 hq)]
+    have huniq := dsolve21_unique geR n (toSys sys) hpiv (marsdenCoef t K p) hsol
+    have hsolve : ∀ c, c < n → fdsolve21 (α := ℝ) (σ := ℝ) n sys c = marsdenCoef t K p c := by
+      intro c hc
+      have e : fdsolve21 (α := ℝ) (σ := ℝ) n sys = @dsolve21 ℝ (ringLinOps geR) n (toSys sys) :=
+        fdsolve21_eq geR n sys
+      rw [e]; exact (huniq c hc).symm
+    rw [ppdnev_real _ _ rfl]
+    congr 1
+    have := poly_spline_derivs t K H he p hp m x hx0 hx1
+    rw [← this]
+    unfold splineFn
+    rw [fdot_real_sum, fdot_real_sum]
+    apply Finset.sum_congr rfl
+    intro i hi
+    rw [Finset.mem_range] at hi
+    have hi' : i < n := hi
+    congr 1
+    rw [getD_map_range, if_pos hi']
+    exact hsolve i hi'
+  · cases h
+
 end Rateslib
